@@ -774,7 +774,10 @@ func c13DecodeSide(c *Ctx, cd *c13Codec, r *Rng, pts []any) {
 		if cd.fam == "mont" {
 			cborOf = "uncompressed"
 		}
-		if format == cborOf && r.IntN(3) == 0 {
+		// the CBOR codec is a separate decoding path: types that promise subgroup membership get every
+		// string through it as well, the others a third
+		sub := cd.full != nil || cd.fam == "bls1" || cd.fam == "bls2"
+		if format == cborOf && (r.IntN(3) == 0 || sub) {
 			emit("cbor", cborWrap(b))
 		}
 	}
@@ -943,6 +946,13 @@ func c13DecodeSide(c *Ctx, cd *c13Codec, r *Rng, pts []any) {
 				}
 			} else if k == 0 {
 				both("uncompressed", cd.uncompressedOf(xv, cd.randCoord(r), 0))
+				// a right y over Fp2 (on the curve, almost never in the subgroup) and its negative
+				if y := fp2CurveY(x, cd.p); y != nil {
+					c.Count("dec." + cd.name + ".oncurve-uncompressed")
+					both("uncompressed", cd.uncompressedOf(xv, y, 0))
+					ny := []*big.Int{new(big.Int).Mod(new(big.Int).Neg(y[0]), cd.p), new(big.Int).Mod(new(big.Int).Neg(y[1]), cd.p)}
+					both("uncompressed", cd.uncompressedOf(xv, ny, 0))
+				}
 			}
 		}
 	}
@@ -978,6 +988,56 @@ func c13DecodeSide(c *Ctx, cd *c13Codec, r *Rng, pts []any) {
 	emit("cbor", []byte{})
 	emit("cbor", []byte{0xa0})
 	emit("cbor", cborWrap(nil))
+}
+
+// fp2CurveY returns y = (y0, y1) over Fp2 = Fp[u]/(u²+1) with y² = x³ + 4(1+u) (the G2 curve), or nil.
+// Generator side only (p ≡ 3 mod 4).
+func fp2CurveY(x []*big.Int, p *big.Int) []*big.Int {
+	mul := func(a, b []*big.Int) []*big.Int {
+		r0 := new(big.Int).Sub(new(big.Int).Mul(a[0], b[0]), new(big.Int).Mul(a[1], b[1]))
+		r1 := new(big.Int).Add(new(big.Int).Mul(a[0], b[1]), new(big.Int).Mul(a[1], b[0]))
+		return []*big.Int{r0.Mod(r0, p), r1.Mod(r1, p)}
+	}
+	x3 := mul(mul(x, x), x)
+	a0 := new(big.Int).Add(x3[0], big.NewInt(4))
+	a0.Mod(a0, p)
+	a1 := new(big.Int).Add(x3[1], big.NewInt(4))
+	a1.Mod(a1, p)
+	var y []*big.Int
+	if a1.Sign() == 0 {
+		if r := sqrtMod(a0, p); r != nil {
+			y = []*big.Int{r, big.NewInt(0)}
+		} else if r := sqrtMod(new(big.Int).Neg(a0), p); r != nil {
+			y = []*big.Int{big.NewInt(0), r}
+		}
+	} else {
+		n := new(big.Int).Add(new(big.Int).Mul(a0, a0), new(big.Int).Mul(a1, a1))
+		sn := sqrtMod(n, p)
+		if sn == nil {
+			return nil
+		}
+		half := new(big.Int).ModInverse(big.NewInt(2), p)
+		for _, sgn := range []int64{1, -1} {
+			t := new(big.Int).Add(a0, new(big.Int).Mul(big.NewInt(sgn), sn))
+			t.Mul(t, half)
+			t.Mod(t, p)
+			y0 := sqrtMod(t, p)
+			if y0 == nil || y0.Sign() == 0 {
+				continue
+			}
+			inv := new(big.Int).ModInverse(new(big.Int).Lsh(y0, 1), p)
+			y1 := new(big.Int).Mul(a1, inv)
+			y = []*big.Int{y0, y1.Mod(y1, p)}
+			break
+		}
+	}
+	if y == nil {
+		return nil
+	}
+	if yy := mul(y, y); yy[0].Cmp(a0) != 0 || yy[1].Cmp(a1) != 0 {
+		return nil
+	}
+	return y
 }
 
 // someY returns a y with (x,y) on the curve (generator side only), or nil.
